@@ -291,12 +291,14 @@ impl TerminalRenderer {
                     *new = Cell::new_char(face, '\0');
                 }
             }
-            if let CellKind::Char(character) = &new.kind {
-                if character.width() == Some(2)
-                    && pos.col + 1 < width
-                    && self.marks.get(pos) != Some(&CellMark::Ignored)
-                {
-                    wide_shadow = Some((Position::new(pos.row, pos.col + 1), new.face));
+            let wide = matches!(&new.kind, CellKind::Char(c) if c.width() == Some(2));
+            if wide && pos.col + 1 < width && self.marks.get(pos) != Some(&CellMark::Ignored) {
+                let shadow_pos = Position::new(pos.row, pos.col + 1);
+                if self.marks.get(shadow_pos) == Some(&CellMark::Ignored) {
+                    // second half is covered by an image, character does not fit
+                    new.kind = CellKind::Char(' ');
+                } else {
+                    wide_shadow = Some((shadow_pos, new.face));
                 }
             }
 
